@@ -464,6 +464,11 @@ where
 
         total_num_docs += docs.len();
 
+        #[cfg(datacake_verif)]
+        if let Some(delay) = datacake_crdt::verif::jitter_for("poller.handle_modified") {
+            tokio::time::sleep(delay).await;
+        }
+
         let msg = MultiSet {
             source: READ_REPAIR_SOURCE_ID,
             docs: DocVec::from_vec(docs),
@@ -496,6 +501,11 @@ where
         return Ok(());
     }
 
+    #[cfg(datacake_verif)]
+    if let Some(delay) = datacake_crdt::verif::jitter_for("poller.handle_removals") {
+        tokio::time::sleep(delay).await;
+    }
+
     if removed.len() == 1 {
         let doc = removed.remove(0);
         let msg = Del {
@@ -514,4 +524,61 @@ where
     };
     keyspace.send(msg).await?;
     Ok(())
+}
+
+#[cfg(datacake_verif)]
+/// Verification-only: drives the real repair path against one chosen peer.
+pub struct Repairer<S>
+where
+    S: Storage,
+{
+    ctx: ReplicationCycleContext<S>,
+    tracker: KeyspaceTracker,
+}
+
+#[cfg(datacake_verif)]
+impl<S> Repairer<S>
+where
+    S: Storage,
+{
+    /// Creates a repairer with its own (empty) keyspace tracker.
+    pub fn new(group: KeyspaceGroup<S>, network: RpcNetwork) -> Self {
+        Self {
+            ctx: ReplicationCycleContext {
+                repair_interval: Duration::from_secs(3600),
+                group,
+                network,
+            },
+            tracker: KeyspaceTracker::default(),
+        }
+    }
+
+    /// Runs the real `repair_members` for the single given peer, then polls the
+    /// peer again and returns the keyspaces the tracker still sees as unsynced.
+    pub async fn repair_from(
+        &mut self,
+        node_id: NodeId,
+        addr: SocketAddr,
+    ) -> Result<Vec<String>, Status> {
+        let mut members = BTreeMap::new();
+        members.insert(node_id, addr);
+        repair_members(&self.ctx, &members, &mut self.tracker).await;
+
+        let channel = self.ctx.network.get_or_connect(addr);
+        let mut client =
+            ReplicationClient::<S>::new(self.ctx.clock().clone(), channel);
+        let keyspace_timestamps = client.poll_keyspace().await?;
+        let mut unsynced = self
+            .tracker
+            .get_diff(node_id, &keyspace_timestamps)
+            .map(|ks| ks.to_string())
+            .collect::<Vec<_>>();
+        unsynced.sort();
+        Ok(unsynced)
+    }
+
+    /// Forgets everything known about a peer (as a membership `left` would).
+    pub fn forget(&mut self, node_id: NodeId) {
+        self.tracker.remove_node(node_id);
+    }
 }
